@@ -47,9 +47,11 @@ def load_dot(path):
     return g
 
 
-def edge_cover(g, maxlen=60, maxwalks=None, rng=None, skip=None):
-    """Greedy edge cover by walks from the initial state, each at most maxlen steps.
-    skip(label) -> True removes an edge from the obligation (it is still usable for moving)."""
+def edge_cover(g, maxlen=60, maxwalks=None, rng=None, skip=None, local_depth=4):
+    """Greedy edge cover by walks from the initial state, each about maxlen steps at most.
+    skip(label) -> True removes an edge from the obligation (it is still usable for moving).
+    A walk goes, along the breadth-first tree, to the uncovered edge nearest to the initial state, then keeps
+    taking uncovered edges, moving to another node with uncovered edges when one is within local_depth steps."""
     assert len(g.init) >= 1
     init = g.init[0]
     unc = {}
@@ -59,17 +61,38 @@ def edge_cover(g, maxlen=60, maxwalks=None, rng=None, skip=None):
         if idx:
             unc[n] = idx
             total += len(idx)
-    walks = []
-    covered = 0
+    # breadth-first tree from the initial state
+    parent = {init: None}
+    order = [init]
+    q = collections.deque([init])
+    while q:
+        n = q.popleft()
+        for lab, d in g.adj.get(n, ()):
+            if d not in parent:
+                parent[d] = (n, lab)
+                order.append(d)
+                q.append(d)
+    depth = {}
+    for n in order:
+        depth[n] = 0 if parent[n] is None else depth[parent[n][0]] + 1
 
-    def bfs(src):
-        # nearest node with uncovered out-edges; returns list of (label, dst)
-        if src in unc:
-            return []
+    def tree_path(n):
+        path = []
+        while parent[n] is not None:
+            p, lab = parent[n]
+            path.append(lab)
+            n = p
+        path.reverse()
+        return path
+
+    def local(src, limit):
+        """bounded breadth-first search for a node with uncovered edges"""
         prev = {src: None}
-        q = collections.deque([src])
+        q = collections.deque([(src, 0)])
         while q:
-            n = q.popleft()
+            n, dd = q.popleft()
+            if dd >= limit:
+                continue
             for lab, d in g.adj.get(n, ()):
                 if d in prev:
                     continue
@@ -83,14 +106,20 @@ def edge_cover(g, maxlen=60, maxwalks=None, rng=None, skip=None):
                         x = p
                     path.reverse()
                     return path
-                q.append(d)
+                q.append((d, dd + 1))
         return None
 
+    walks = []
+    covered = 0
+    pos = 0
     while unc and (maxwalks is None or len(walks) < maxwalks):
-        cur = init
-        walk = []
-        progressed = False
-        while len(walk) < maxlen:
+        while pos < len(order) and order[pos] not in unc:
+            pos += 1
+        if pos >= len(order):
+            break      # remaining uncovered edges are unreachable (cannot happen for a TLC graph)
+        cur = order[pos]
+        walk = tree_path(cur)
+        while True:
             if cur in unc:
                 lst = unc[cur]
                 k = rng.randrange(len(lst)) if rng else len(lst) - 1
@@ -100,28 +129,19 @@ def edge_cover(g, maxlen=60, maxwalks=None, rng=None, skip=None):
                 lab, d = g.adj[cur][i]
                 walk.append(lab)
                 covered += 1
-                progressed = True
                 cur = d
+                if len(walk) >= maxlen:
+                    break
                 continue
-            path = bfs(cur)
-            if path is None or len(walk) + len(path) >= maxlen:
+            room = maxlen - len(walk)
+            if room <= 0:
+                break
+            path = local(cur, min(local_depth, room))
+            if path is None:
                 break
             for lab, d in path:
                 walk.append(lab)
                 cur = d
-        if not progressed:
-            # the nearest uncovered edge is farther than maxlen from init: extend once beyond the limit
-            path = bfs(init)
-            if path is None:
-                break
-            walk = [lab for lab, _ in path]
-            cur = path[-1][1] if path else init
-            lst = unc[cur]
-            i = lst.pop()
-            if not lst:
-                del unc[cur]
-            walk.append(g.adj[cur][i][0])
-            covered += 1
         walks.append(walk)
     return walks, covered, total
 
